@@ -1,13 +1,32 @@
 import GeodeVerif.GenR.Survey
 import GeodeVerif.Lemmas.PyRSimp
+import Mathlib.Analysis.Calculus.Deriv.Inv
+import Mathlib.Analysis.Calculus.Deriv.Pow
+import Mathlib.Analysis.Calculus.Deriv.Mul
+import Mathlib.Analysis.Calculus.Deriv.Add
 import Mathlib.Tactic.FieldSimp
 import Mathlib.Tactic.Ring
 import Mathlib.Tactic.Linarith
 /-!
 # C19 — survey reductions (theorems about the regenerated `GenR.Survey` / `GenR.Convert`)
+
+1. `join_radiate`, `radiate_join`, `bearing_range`, `bearing_north`, `bearing_east`
+2. `rotation_scale`
+3. `va_conv_upper`, `va_conv_lower`, `va_pythagoras`, `va_heights`, `va_rejects`, `va_defined`
+4. `fvc_closed_form`, `fvc_proportional_closed`, `fvc_ciddor_form`, `fvc_proportional_co2`,
+   `fvc_scale_closed`, `fvc_scale_co2`
+5. `fvc_defined_closed`, `fvc_defined_closed_wet`, `fvc_defined_co2` (+ the rejected cases)
+6. `group_is_phase_plus_dispersion`
+7. `density_terms_shared`
+
+Model caveat: the real-number reading has total division (`x / 0 = 0`), so the `fvc_defined_*`
+theorems speak about the decision logic (no `ValueError`), not about `ZeroDivisionError` at
+`temp = -273.15` or `wet_temp = -240.94`.
 -/
 namespace GeodeVerif.C19
 open PyR GenR.Survey GenR.Convert
+
+/-! ### joins / radiations / rect2polar -/
 
 /-- rect2polar returns the Euclidean norm and an angle whose sin/cos reproduce the vector. -/
 theorem rect2polar_spec (x y : ℝ) :
@@ -35,4 +54,489 @@ theorem join_radiate (e1 n1 e2 n2 : ℝ) :
   rw [hs, hc]
   simp
 
+private theorem degrees_lt {t : ℝ} (a : ℝ) (h : t < a) : PyR.degrees t < PyR.degrees a := by
+  simp only [degrees_def]
+  exact mul_lt_mul_of_pos_right h (by positivity)
+
+private theorem degrees_le {t : ℝ} (a : ℝ) (h : t ≤ a) : PyR.degrees t ≤ PyR.degrees a := by
+  simp only [degrees_def]
+  exact mul_le_mul_of_nonneg_right h (by positivity)
+
+private theorem degrees_pi : PyR.degrees Real.pi = 180 := by
+  simp only [degrees_def]; field_simp
+
+private theorem degrees_zero : PyR.degrees 0 = 0 := by
+  simp only [degrees_def]; ring
+
+theorem bearing_range (x y : ℝ) :
+    0 ≤ (rect2polar x y).2 ∧ (rect2polar x y).2 < 360 := by
+  have h1 := Complex.neg_pi_lt_arg (⟨y, x⟩ : ℂ)
+  have h2 := Complex.arg_le_pi (⟨y, x⟩ : ℂ)
+  have d1 := degrees_lt _ h1
+  have d2 := degrees_le _ h2
+  rw [degrees_pi] at d2
+  have d3 : PyR.degrees (-Real.pi) = -180 := by
+    simp only [degrees_def]; field_simp
+  rw [d3] at d1
+  unfold rect2polar
+  simp only [atan2_def]
+  split_ifs with h
+  · have d4 := degrees_lt _ h
+    rw [degrees_zero] at d4
+    constructor <;> linarith
+  · have d4 := degrees_le _ (not_lt.mp h)
+    rw [degrees_zero] at d4
+    constructor <;> linarith
+
+theorem bearing_north (y : ℝ) (hy : 0 < y) : (rect2polar 0 y).2 = 0 := by
+  have h : Complex.arg (⟨y, 0⟩ : ℂ) = 0 := Complex.arg_ofReal_of_nonneg hy.le
+  unfold rect2polar
+  simp only [h, lt_irrefl, if_false, degrees_zero]
+
+theorem bearing_east (x : ℝ) (hx : 0 < x) : (rect2polar x 0).2 = 90 := by
+  have h : Complex.arg (⟨0, x⟩ : ℂ) = Real.pi / 2 :=
+    Complex.arg_eq_pi_div_two_iff.mpr ⟨rfl, hx⟩
+  have hp : ¬ (Real.pi / 2 < 0) := not_lt.mpr (by positivity)
+  unfold rect2polar
+  simp only [h, hp, if_false, degrees_def]
+  field_simp
+  norm_num
+
+theorem rotation_scale (e n b d ρ k : ℝ) :
+    radiations e n b d ρ k =
+      (e + k * d * Real.sin ((b + ρ) * (Real.pi / 180)),
+       n + k * d * Real.cos ((b + ρ) * (Real.pi / 180))) := by
+  unfold radiations polar2rect
+  simp only [sin_def, cos_def, radians_def, mul_comm d k]
+
+
+/-! ### va_conv -/
+
+/-- explicit result of `va_conv` for a zenith angle in (0°, 180°) -/
+theorem va_conv_upper (za sd hi ht : ℝ) (h0 : 0 < za) (h1 : za < 180) :
+    va_conv za sd hi ht = .ok
+      (PyR.degrees (Real.arctan ((hi + sd * Real.sin (PyR.radians (90 - za)) - ht) /
+          (sd * Real.cos (PyR.radians (90 - za))))),
+       Real.sqrt ((hi + sd * Real.sin (PyR.radians (90 - za)) - ht) ^ 2 +
+          (sd * Real.cos (PyR.radians (90 - za))) ^ 2),
+       sd * Real.cos (PyR.radians (90 - za)),
+       hi + sd * Real.sin (PyR.radians (90 - za)) - ht) := by
+  have hn : ¬ (za = 0 ∨ za = 180) := by
+    rintro (h | h) <;> linarith
+  unfold va_conv
+  simp only [feq, if_neg hn, h0, h1, and_self, if_true]
+  rfl
+
+/-- explicit result of `va_conv` for a zenith angle in (180°, 360°) (face right) -/
+theorem va_conv_lower (za sd hi ht : ℝ) (h0 : 180 < za) (h1 : za < 360) :
+    va_conv za sd hi ht = .ok
+      (PyR.degrees (Real.arctan ((hi + sd * Real.sin (PyR.radians (270 - za)) - ht) /
+          (sd * Real.cos (PyR.radians (270 - za))))),
+       Real.sqrt ((hi + sd * Real.sin (PyR.radians (270 - za)) - ht) ^ 2 +
+          (sd * Real.cos (PyR.radians (270 - za))) ^ 2),
+       sd * Real.cos (PyR.radians (270 - za)),
+       hi + sd * Real.sin (PyR.radians (270 - za)) - ht) := by
+  have hn : ¬ (za = 0 ∨ za = 180) := by
+    rintro (h | h) <;> linarith
+  have hu : ¬ (0 < za ∧ za < 180) := fun h => by linarith [h.2]
+  unfold va_conv
+  simp only [feq, if_neg hn, if_neg hu, h0, h1, and_self, if_true]
+  rfl
+
+/-- `va_conv` raises `ValueError` exactly outside (0,180) ∪ (180,360): this direction. -/
+theorem va_rejects (za sd hi ht : ℝ) (hu : ¬ (0 < za ∧ za < 180)) (hl : ¬ (180 < za ∧ za < 360)) :
+    va_conv za sd hi ht = .error .ValueError := by
+  unfold va_conv
+  split_ifs
+  · rfl
+  · rfl
+
+theorem va_rejects_zero (sd hi ht : ℝ) : va_conv 0 sd hi ht = .error .ValueError :=
+  va_rejects 0 sd hi ht (fun h => lt_irrefl _ h.1) (fun h => by linarith [h.1])
+
+theorem va_rejects_180 (sd hi ht : ℝ) : va_conv 180 sd hi ht = .error .ValueError :=
+  va_rejects 180 sd hi ht (fun h => lt_irrefl _ h.2) (fun h => lt_irrefl _ h.1)
+
+/-- and conversely `va_conv` returns a value on (0,180) ∪ (180,360). -/
+theorem va_defined (za sd hi ht : ℝ) (h : (0 < za ∧ za < 180) ∨ (180 < za ∧ za < 360)) :
+    ∃ r, va_conv za sd hi ht = .ok r := by
+  rcases h with h | h
+  · exact ⟨_, va_conv_upper za sd hi ht h.1 h.2⟩
+  · exact ⟨_, va_conv_lower za sd hi ht h.1 h.2⟩
+
+/-- Pythagoras: with zero instrument/target heights, hz² + Δh² = slope², both faces. -/
+theorem va_pythagoras (za sd v s hz dh : ℝ) (h : (0 < za ∧ za < 180) ∨ (180 < za ∧ za < 360))
+    (hr : va_conv za sd 0 0 = .ok (v, s, hz, dh)) :
+    hz ^ 2 + dh ^ 2 = sd ^ 2 ∧ s = |sd| := by
+  rcases h with h | h
+  · rw [va_conv_upper za sd 0 0 h.1 h.2] at hr
+    injection hr with hr
+    simp only [Prod.mk.injEq] at hr
+    obtain ⟨_, hs, hhz, hdh⟩ := hr
+    have key : hz ^ 2 + dh ^ 2 = sd ^ 2 := by
+      rw [← hhz, ← hdh]
+      have := Real.cos_sq_add_sin_sq (PyR.radians (90 - za))
+      linear_combination sd ^ 2 * this
+    refine ⟨key, ?_⟩
+    rw [← hs, hhz, hdh, add_comm, key, Real.sqrt_sq_eq_abs]
+  · rw [va_conv_lower za sd 0 0 h.1 h.2] at hr
+    injection hr with hr
+    simp only [Prod.mk.injEq] at hr
+    obtain ⟨_, hs, hhz, hdh⟩ := hr
+    have key : hz ^ 2 + dh ^ 2 = sd ^ 2 := by
+      rw [← hhz, ← hdh]
+      have := Real.cos_sq_add_sin_sq (PyR.radians (270 - za))
+      linear_combination sd ^ 2 * this
+    refine ⟨key, ?_⟩
+    rw [← hs, hhz, hdh, add_comm, key, Real.sqrt_sq_eq_abs]
+
+/-- heights: hz does not depend on the instrument/target heights and Δh = hᵢ + Δh₀ − hₜ. -/
+theorem va_heights (za sd hi ht v s hz dh v0 s0 hz0 dh0 : ℝ)
+    (hr : va_conv za sd hi ht = .ok (v, s, hz, dh))
+    (hr0 : va_conv za sd 0 0 = .ok (v0, s0, hz0, dh0)) :
+    hz = hz0 ∧ dh = hi + dh0 - ht := by
+  by_cases hu : 0 < za ∧ za < 180
+  · rw [va_conv_upper za sd _ _ hu.1 hu.2] at hr hr0
+    injection hr with hr; injection hr0 with hr0
+    simp only [Prod.mk.injEq] at hr hr0
+    obtain ⟨_, _, hhz, hdh⟩ := hr
+    obtain ⟨_, _, hhz0, hdh0⟩ := hr0
+    refine ⟨by rw [← hhz, ← hhz0], ?_⟩
+    rw [← hdh, ← hdh0]; ring
+  · by_cases hl : 180 < za ∧ za < 360
+    · rw [va_conv_lower za sd _ _ hl.1 hl.2] at hr hr0
+      injection hr with hr; injection hr0 with hr0
+      simp only [Prod.mk.injEq] at hr hr0
+      obtain ⟨_, _, hhz, hdh⟩ := hr
+      obtain ⟨_, _, hhz0, hdh0⟩ := hr0
+      refine ⟨by rw [← hhz, ← hhz0], ?_⟩
+      rw [← hdh, ← hdh0]; ring
+    · rw [va_rejects za sd hi ht hu hl] at hr
+      cases hr
+
+example : ∃ v s hz dh : ℝ, va_conv 60 10 0 0 = .ok (v, s, hz, dh) :=
+  ⟨_, _, _, _, va_conv_upper 60 10 0 0 (by norm_num) (by norm_num)⟩
+
+private theorem arg_polar (d θ : ℝ) (hd : 0 < d) (hθ : θ ∈ Set.Ioc (-Real.pi) Real.pi) :
+    Complex.arg (⟨d * Real.cos θ, d * Real.sin θ⟩ : ℂ) = θ := by
+  have : (⟨d * Real.cos θ, d * Real.sin θ⟩ : ℂ) =
+      (d : ℂ) * (Complex.cos θ + Complex.sin θ * Complex.I) := by
+    apply Complex.ext <;>
+      simp [Complex.cos_ofReal_re, Complex.sin_ofReal_re, Complex.cos_ofReal_im, Complex.sin_ofReal_im]
+  rw [this]
+  exact Complex.arg_mul_cos_add_sin_mul_I hd hθ
+
+/-- C19.1 radiate→join: joining to the radiated point recovers distance and bearing. -/
+theorem radiate_join (e n brg dist : ℝ) (hb0 : 0 ≤ brg) (hb1 : brg < 360) (hd : 0 < dist) :
+    joins e n (radiations e n brg dist 0 1).1 (radiations e n brg dist 0 1).2 = (dist, brg) := by
+  have hpi := Real.pi_pos
+  have hr : Real.sqrt ((dist * Real.sin (PyR.radians brg)) ^ 2 +
+      (dist * Real.cos (PyR.radians brg)) ^ 2) = dist := by
+    have : (dist * Real.sin (PyR.radians brg)) ^ 2 + (dist * Real.cos (PyR.radians brg)) ^ 2
+        = dist ^ 2 := by
+      have := Real.sin_sq_add_cos_sq (PyR.radians brg)
+      linear_combination dist ^ 2 * this
+    rw [this, Real.sqrt_sq hd.le]
+  unfold joins radiations polar2rect rect2polar
+  simp only [sin_def, cos_def, add_zero, mul_one, add_sub_cancel_left, sqrt_def, pown_def,
+    atan2_def, hr]
+  by_cases hb : brg ≤ 180
+  · have hθ : PyR.radians brg ∈ Set.Ioc (-Real.pi) Real.pi := by
+      simp only [radians_def, Set.mem_Ioc]
+      constructor
+      · have : 0 ≤ brg * (Real.pi / 180) := by positivity
+        linarith
+      · have : brg * (Real.pi / 180) ≤ 180 * (Real.pi / 180) :=
+          mul_le_mul_of_nonneg_right hb (by positivity)
+        linarith
+    rw [arg_polar _ _ hd hθ]
+    have : ¬ (PyR.radians brg < 0) := by
+      simp only [radians_def, not_lt]; positivity
+    rw [if_neg this, degrees_radians]
+  · have hb := not_le.mp hb
+    have hθ : PyR.radians brg - 2 * Real.pi ∈ Set.Ioc (-Real.pi) Real.pi := by
+      simp only [radians_def, Set.mem_Ioc]
+      have h1 : 180 * (Real.pi / 180) < brg * (Real.pi / 180) :=
+        mul_lt_mul_of_pos_right hb (by positivity)
+      have h2 : brg * (Real.pi / 180) < 360 * (Real.pi / 180) :=
+        mul_lt_mul_of_pos_right hb1 (by positivity)
+      constructor <;> linarith
+    have hneg : PyR.radians brg - 2 * Real.pi < 0 := by
+      simp only [radians_def]
+      have h2 : brg * (Real.pi / 180) < 360 * (Real.pi / 180) :=
+        mul_lt_mul_of_pos_right hb1 (by positivity)
+      linarith
+    have := arg_polar dist _ hd hθ
+    rw [Real.cos_sub_two_pi, Real.sin_sub_two_pi] at this
+    rw [this, if_pos hneg]
+    congr 1
+    simp only [radians_def, degrees_def]
+    field_simp
+    ring
+
+/-! ### first_vel_corrn -/
+
+/-- `part_h2o_vap_press` with a relative humidity returns a value for EVERY humidity (incl. 0). -/
+theorem vap_press_rh (t p rh : ℝ) (wt : Option ℝ) :
+    part_h2o_vap_press t p (some rh) wt = .ok
+      ((((PyR.dec 10007 4) + (((PyR.dec 346 2) * p) * (PyR.powz 10 (-6)))) * (PyR.dec 61121 4)) *
+        (Real.exp (((PyR.dec 17502 3) * t) / ((PyR.dec 24094 2) + t))) * rh / 100) := by
+  unfold part_h2o_vap_press
+  simp only [Option.isNone_some, Bool.false_eq_true, false_and, if_false, not_false_eq_true,
+    if_true, unopt_some, exp_def]
+
+/-- `part_h2o_vap_press` with a wet-bulb temperature (no humidity) returns a value for EVERY
+wet-bulb temperature (incl. 0). -/
+theorem vap_press_wet (t p wt : ℝ) :
+    part_h2o_vap_press t p none (some wt) = .ok
+      ((((PyR.dec 10007 4) + (((PyR.dec 346 2) * p) * (PyR.powz 10 (-6)))) * (PyR.dec 61121 4)) *
+        (Real.exp (((PyR.dec 17502 3) * wt) / ((PyR.dec 24094 2) + wt))) -
+        ((PyR.dec 662 6) * p) * (t - wt)) := by
+  unfold part_h2o_vap_press
+  simp only [Option.isNone_some, Option.isNone_none, Bool.false_eq_true, and_false, if_false,
+    not_true_eq_false, unopt_some, exp_def]
+
+/-- closed-formula branch (no CO₂ given): the correction is `dist × c`, with `c` explicit. -/
+theorem fvc_closed_form (dist t p e : ℝ) (prm : ℝ × ℝ) (rh wt wl : Option ℝ)
+    (he : part_h2o_vap_press t p rh wt = .ok e) :
+    first_vel_corrn dist prm t p rh wt none wl = .ok
+      (dist * (((prm.1 - prm.2 * p / (t + 273.15)) + 11.27 * e / (t + 273.15)) * 10 ^ (-6 : ℤ))) := by
+  unfold first_vel_corrn
+  simp only [truthyO_none, not_false_eq_true, if_true, he, Except.bind, powz_def, dec_def]
+  congr 1
+  norm_num
+  ring
+
+
+/-- C19.4a: in the closed-formula branch the correction is proportional to the distance
+(whenever the vapour pressure is defined, i.e. humidity or wet-bulb given). -/
+theorem fvc_proportional_closed (t p : ℝ) (prm : ℝ × ℝ) (rh wt wl : Option ℝ)
+    (hd : ¬ (rh.isNone = true ∧ wt.isNone = true)) :
+    ∃ c : ℝ, ∀ dist : ℝ, first_vel_corrn dist prm t p rh wt none wl = .ok (dist * c) := by
+  have he : ∃ e, part_h2o_vap_press t p rh wt = .ok e := by
+    unfold part_h2o_vap_press
+    rw [if_neg hd]
+    exact ⟨_, rfl⟩
+  obtain ⟨e, he⟩ := he
+  exact ⟨_, fun dist => fvc_closed_form dist t p e prm rh wt wl he⟩
+
+/-- scaling form of proportionality, closed branch -/
+theorem fvc_scale_closed (k dist t p v : ℝ) (prm : ℝ × ℝ) (rh wt wl : Option ℝ)
+    (h : first_vel_corrn dist prm t p rh wt none wl = .ok v) :
+    first_vel_corrn (k * dist) prm t p rh wt none wl = .ok (k * v) := by
+  by_cases hd : rh.isNone = true ∧ wt.isNone = true
+  · exfalso
+    unfold first_vel_corrn part_h2o_vap_press at h
+    simp only [truthyO_none, not_false_eq_true, if_true, if_pos hd, Except.bind] at h
+    cases h
+  · obtain ⟨c, hc⟩ := fvc_proportional_closed t p prm rh wt wl hd
+    rw [hc dist] at h
+    injection h with h
+    rw [hc (k * dist), ← h, mul_assoc]
+
+/-- C19.5 (closed branch): defined for every temperature, pressure and EVERY relative humidity,
+including `rh = 0` and `temp = 0`. -/
+theorem fvc_defined_closed (dist t p rh : ℝ) (prm : ℝ × ℝ) :
+    ∃ v, first_vel_corrn dist prm t p (some rh) none none none = .ok v :=
+  ⟨_, fvc_closed_form dist t p _ prm _ _ _ (vap_press_rh t p rh none)⟩
+
+/-- C19.5 (closed branch, wet bulb): defined for every wet-bulb temperature including 0. -/
+theorem fvc_defined_closed_wet (dist t p wt : ℝ) (prm : ℝ × ℝ) :
+    ∃ v, first_vel_corrn dist prm t p none (some wt) none none = .ok v :=
+  ⟨_, fvc_closed_form dist t p _ prm _ _ _ (vap_press_wet t p wt)⟩
+
+example : ∃ v, first_vel_corrn 1000 (281.8, 79.4) 0 1013.25 (some 0) none none none = .ok v :=
+  fvc_defined_closed _ _ _ _ _
+example : ∃ v, first_vel_corrn 1000 (281.8, 79.4) 0 1013.25 none (some 0) none none = .ok v :=
+  fvc_defined_closed_wet _ _ _ _ _
+
+/-- neither humidity nor wet bulb: `ValueError` (the only rejected case of the closed branch) -/
+theorem fvc_rejects_no_humidity (dist t p : ℝ) (prm : ℝ × ℝ) (wl : Option ℝ) :
+    first_vel_corrn dist prm t p none none none wl = .error .ValueError := by
+  unfold first_vel_corrn part_h2o_vap_press
+  simp only [truthyO_none, not_false_eq_true, if_true, Option.isNone_none, and_self, Except.bind]
+
+/-- C19.4b: the CO₂ (Ciddor) branch is `(n_ref / n_g − 1) · dist`, `n_ref = 1 + C·10⁻⁶`,
+`n_g = 1 + N_g·10⁻⁸`, `N_g` the group refractivity at the ambient atmosphere. -/
+theorem fvc_ciddor_form (dist t p rh co2 wl : ℝ) (prm : ℝ × ℝ) (wt : Option ℝ) (hc : co2 ≠ 0) :
+    first_vel_corrn dist prm t p (some rh) wt (some co2) (some wl) = .ok
+      (((1 + prm.1 / 10 ^ 6) /
+        (1 + group_refractivity wl t p (humidity2part_water_vapour_press rh t) co2 / 10 ^ 8) - 1)
+        * dist) := by
+  unfold first_vel_corrn
+  simp only [truthyO_some, ne_eq, hc, not_false_eq_true, not_true_eq_false, if_false,
+    Option.isNone_some, Bool.false_eq_true, and_self, if_true, unopt_some, Except.bind]
+  congr 1
+  norm_num
+
+theorem fvc_proportional_co2 (t p rh co2 wl : ℝ) (prm : ℝ × ℝ) (wt : Option ℝ) (hc : co2 ≠ 0) :
+    ∃ c : ℝ, ∀ dist : ℝ,
+      first_vel_corrn dist prm t p (some rh) wt (some co2) (some wl) = .ok (dist * c) :=
+  ⟨_, fun dist => by rw [fvc_ciddor_form dist t p rh co2 wl prm wt hc, mul_comm]⟩
+
+theorem fvc_scale_co2 (k dist t p rh co2 wl v : ℝ) (prm : ℝ × ℝ) (wt : Option ℝ) (hc : co2 ≠ 0)
+    (h : first_vel_corrn dist prm t p (some rh) wt (some co2) (some wl) = .ok v) :
+    first_vel_corrn (k * dist) prm t p (some rh) wt (some co2) (some wl) = .ok (k * v) := by
+  rw [fvc_ciddor_form _ t p rh co2 wl prm wt hc] at h ⊢
+  injection h with h
+  rw [← h]; congr 1; ring
+
+/-- C19.5 (CO₂ branch): defined for every non-zero CO₂ content, EVERY humidity and temperature
+(including 0 % and 0 °C) and every wavelength. -/
+theorem fvc_defined_co2 (dist t p rh co2 wl : ℝ) (prm : ℝ × ℝ) (hc : co2 ≠ 0) :
+    ∃ v, first_vel_corrn dist prm t p (some rh) none (some co2) (some wl) = .ok v :=
+  ⟨_, fvc_ciddor_form dist t p rh co2 wl prm none hc⟩
+
+example : ∃ v, first_vel_corrn 1000 (281.8, 79.4) 0 1013.25 (some 0) none (some 420) (some 0.85)
+    = .ok v := fvc_defined_co2 _ _ _ _ _ _ _ (by norm_num)
+
+/-- CO₂ branch without humidity or without wavelength: `ValueError`. -/
+theorem fvc_rejects_co2_missing (dist t p co2 : ℝ) (prm : ℝ × ℝ) (rh wt wl : Option ℝ)
+    (hc : co2 ≠ 0) (hm : rh = none ∨ wl = none) :
+    first_vel_corrn dist prm t p rh wt (some co2) wl = .error .ValueError := by
+  unfold first_vel_corrn
+  rcases hm with h | h <;> subst h <;>
+    simp [truthyO_some, hc, Except.bind]
+
+/-! ### group refractivity = phase refractivity + σ · d(phase)/dσ -/
+
+/-- shape of the Ciddor phase refractivity as a function of the wavenumber `s`;
+`Da`, `Dv` the density ratios and `c` the CO₂ factor. -/
+noncomputable def phaseT (K0 K1 K2 K3 W0 W1 W2 W3 CF Da Dv c s : ℝ) : ℝ :=
+  Da * ((K1 / (K0 - s * s) + K3 / (K2 - s * s)) * c) +
+  Dv * (CF * (W0 + W1 * (s * s) + W2 * ((s * s) * (s * s)) + W3 * ((s * s) * ((s * s) * (s * s)))))
+
+/-- shape of the Ciddor group refractivity -/
+noncomputable def groupT (K0 K1 K2 K3 W0 W1 W2 W3 CF Da Dv c s : ℝ) : ℝ :=
+  Da * ((K1 * ((K0 + s * s) / ((K0 - s * s) * (K0 - s * s))) +
+         K3 * ((K2 + s * s) / ((K2 - s * s) * (K2 - s * s)))) * c) +
+  Dv * (CF * (W0 + 3 * W1 * (s * s) + 5 * W2 * ((s * s) * (s * s)) +
+    7 * W3 * ((s * s) * ((s * s) * (s * s)))))
+
+theorem density_terms_shared (TC P PV XC : ℝ) : ∃ Da Dv c : ℝ, ∀ L : ℝ,
+    phase_refractivity L TC P PV XC =
+      phaseT (dec 2380185 4) 5792105 (dec 57362 3) 167917
+        (dec 295235 3) (dec 26422 4) (-(dec 3238 5)) (dec 4028 6) (dec 1022 3) Da Dv c (1 / L) ∧
+    group_refractivity L TC P PV XC =
+      groupT (dec 2380185 4) 5792105 (dec 57362 3) 167917
+        (dec 295235 3) (dec 26422 4) (-(dec 3238 5)) (dec 4028 6) (dec 1022 3) Da Dv c (1 / L) := by
+  unfold phase_refractivity group_refractivity refractivity_constants phaseT groupT
+  simp only []
+  exact ⟨_, _, _, fun L => ⟨rfl, rfl⟩⟩
+
+
+/-- derivative of `phaseT` with respect to the wavenumber -/
+noncomputable def dphaseT (K0 K1 K2 K3 W1 W2 W3 CF Da Dv c s : ℝ) : ℝ :=
+  Da * ((K1 * (2 * s) / ((K0 - s * s) * (K0 - s * s)) +
+         K3 * (2 * s) / ((K2 - s * s) * (K2 - s * s))) * c) +
+  Dv * (CF * (2 * W1 * s + 4 * W2 * s ^ 3 + 6 * W3 * s ^ 5))
+
+private theorem sq_hasDeriv (s : ℝ) : HasDerivAt (fun s : ℝ => s * s) (2 * s) s := by
+  have h := (hasDerivAt_id' s).mul (hasDerivAt_id' s)
+  exact h.congr_deriv (by ring)
+
+private theorem recip_hasDeriv (K k s : ℝ) (h : k - s * s ≠ 0) :
+    HasDerivAt (fun s : ℝ => K / (k - s * s)) (K * (2 * s) / ((k - s * s) * (k - s * s))) s := by
+  have hd : HasDerivAt (fun s : ℝ => k - s * s) (-(2 * s)) s := (sq_hasDeriv s).const_sub k
+  have := (hasDerivAt_const s K).fun_div hd h
+  exact this.congr_deriv (by field_simp; ring)
+
+theorem phaseT_hasDeriv (K0 K1 K2 K3 W0 W1 W2 W3 CF Da Dv c s : ℝ)
+    (h0 : K0 - s * s ≠ 0) (h2 : K2 - s * s ≠ 0) :
+    HasDerivAt (phaseT K0 K1 K2 K3 W0 W1 W2 W3 CF Da Dv c)
+      (dphaseT K0 K1 K2 K3 W1 W2 W3 CF Da Dv c s) s := by
+  unfold phaseT dphaseT
+  have hs := sq_hasDeriv s
+  have hA := recip_hasDeriv K1 K0 s h0
+  have hB := recip_hasDeriv K3 K2 s h2
+  have hW : HasDerivAt (fun s : ℝ => W0 + W1 * (s * s) + W2 * ((s * s) * (s * s)) +
+      W3 * ((s * s) * ((s * s) * (s * s))))
+      (2 * W1 * s + 4 * W2 * s ^ 3 + 6 * W3 * s ^ 5) s := by
+    have h := (((hs.const_mul W1).const_add W0).add ((hs.mul hs).const_mul W2)).add
+      ((hs.mul (hs.mul hs)).const_mul W3)
+    exact h.congr_deriv (by simp only [Pi.mul_apply]; ring)
+  exact (((hA.add hB).mul_const c).const_mul Da).add ((hW.const_mul CF).const_mul Dv)
+
+theorem groupT_eq (K0 K1 K2 K3 W0 W1 W2 W3 CF Da Dv c s : ℝ)
+    (h0 : K0 - s * s ≠ 0) (h2 : K2 - s * s ≠ 0) :
+    groupT K0 K1 K2 K3 W0 W1 W2 W3 CF Da Dv c s =
+      phaseT K0 K1 K2 K3 W0 W1 W2 W3 CF Da Dv c s +
+        s * dphaseT K0 K1 K2 K3 W1 W2 W3 CF Da Dv c s := by
+  unfold groupT phaseT dphaseT
+  have h0' : K0 - s ^ 2 ≠ 0 := by rwa [sq]
+  have h2' : K2 - s ^ 2 ≠ 0 := by rwa [sq]
+  have e : s * s = s ^ 2 := (sq s).symm
+  simp only [e]
+  field_simp
+  ring
+
+/-- C19.6. With `Pσ s := phase_refractivity (1/s) …` (phase refractivity as a function of the
+wavenumber): `Pσ` is differentiable at every admissible `σ`, its derivative is
+`(group − phase)/σ`, i.e. `group_refractivity = Pσ + σ · dPσ/dσ`. -/
+theorem group_is_phase_plus_dispersion (σ TC P PV XC : ℝ) (hσ : σ ≠ 0)
+    (h0 : (238.0185 : ℝ) - σ ^ 2 ≠ 0) (h2 : (57.362 : ℝ) - σ ^ 2 ≠ 0) :
+    HasDerivAt (fun s : ℝ => phase_refractivity (1 / s) TC P PV XC)
+      ((group_refractivity (1 / σ) TC P PV XC - phase_refractivity (1 / σ) TC P PV XC) / σ) σ ∧
+    group_refractivity (1 / σ) TC P PV XC =
+      phase_refractivity (1 / σ) TC P PV XC +
+        σ * deriv (fun s : ℝ => phase_refractivity (1 / s) TC P PV XC) σ := by
+  obtain ⟨Da, Dv, c, h⟩ := density_terms_shared TC P PV XC
+  have k0 : dec 2380185 4 - σ * σ ≠ 0 := by
+    rw [dec_def, ← sq]; norm_num at h0 ⊢; exact h0
+  have k2 : dec 57362 3 - σ * σ ≠ 0 := by
+    rw [dec_def, ← sq]; norm_num at h2 ⊢; exact h2
+  have hf : (fun s : ℝ => phase_refractivity (1 / s) TC P PV XC) =
+      phaseT (dec 2380185 4) 5792105 (dec 57362 3) 167917
+        (dec 295235 3) (dec 26422 4) (-(dec 3238 5)) (dec 4028 6) (dec 1022 3) Da Dv c := by
+    funext s
+    rw [(h (1 / s)).1, one_div_one_div]
+  have hd := phaseT_hasDeriv (dec 2380185 4) 5792105 (dec 57362 3) 167917
+        (dec 295235 3) (dec 26422 4) (-(dec 3238 5)) (dec 4028 6) (dec 1022 3) Da Dv c σ k0 k2
+  have hg := groupT_eq (dec 2380185 4) 5792105 (dec 57362 3) 167917
+        (dec 295235 3) (dec 26422 4) (-(dec 3238 5)) (dec 4028 6) (dec 1022 3) Da Dv c σ k0 k2
+  have hG := (h (1 / σ)).2
+  have hP := (h (1 / σ)).1
+  rw [one_div_one_div] at hG hP
+  rw [hf, hd.deriv, hG, hP]
+  refine ⟨?_, hg⟩
+  have : (groupT (dec 2380185 4) 5792105 (dec 57362 3) 167917
+        (dec 295235 3) (dec 26422 4) (-(dec 3238 5)) (dec 4028 6) (dec 1022 3) Da Dv c σ -
+      phaseT (dec 2380185 4) 5792105 (dec 57362 3) 167917
+        (dec 295235 3) (dec 26422 4) (-(dec 3238 5)) (dec 4028 6) (dec 1022 3) Da Dv c σ) / σ =
+      dphaseT (dec 2380185 4) 5792105 (dec 57362 3) 167917
+        (dec 26422 4) (-(dec 3238 5)) (dec 4028 6) (dec 1022 3) Da Dv c σ := by
+    rw [hg]; field_simp; ring
+  rw [this]
+  exact hd
+
+/-- the same in terms of the wavelength `LAMDA ≠ 0` (µm), `σ = 1/LAMDA`. -/
+theorem group_is_phase_plus_dispersion_wavelength (LAMDA TC P PV XC : ℝ) (hL : LAMDA ≠ 0)
+    (h0 : (238.0185 : ℝ) - (1 / LAMDA) ^ 2 ≠ 0) (h2 : (57.362 : ℝ) - (1 / LAMDA) ^ 2 ≠ 0) :
+    group_refractivity LAMDA TC P PV XC =
+      phase_refractivity LAMDA TC P PV XC +
+        (1 / LAMDA) * deriv (fun s : ℝ => phase_refractivity (1 / s) TC P PV XC) (1 / LAMDA) := by
+  have h := (group_is_phase_plus_dispersion (1 / LAMDA) TC P PV XC
+    (one_div_ne_zero hL) h0 h2).2
+  rwa [one_div_one_div] at h
+
+example : ∃ σ : ℝ, σ ≠ 0 ∧ (238.0185 : ℝ) - σ ^ 2 ≠ 0 ∧ (57.362 : ℝ) - σ ^ 2 ≠ 0 :=
+  ⟨1, by norm_num, by norm_num, by norm_num⟩
+
 end GeodeVerif.C19
+
+#print axioms GeodeVerif.C19.join_radiate
+#print axioms GeodeVerif.C19.radiate_join
+#print axioms GeodeVerif.C19.bearing_range
+#print axioms GeodeVerif.C19.rotation_scale
+#print axioms GeodeVerif.C19.va_pythagoras
+#print axioms GeodeVerif.C19.va_heights
+#print axioms GeodeVerif.C19.va_rejects
+#print axioms GeodeVerif.C19.fvc_proportional_closed
+#print axioms GeodeVerif.C19.fvc_proportional_co2
+#print axioms GeodeVerif.C19.fvc_ciddor_form
+#print axioms GeodeVerif.C19.fvc_defined_closed
+#print axioms GeodeVerif.C19.fvc_defined_closed_wet
+#print axioms GeodeVerif.C19.fvc_defined_co2
+#print axioms GeodeVerif.C19.density_terms_shared
+#print axioms GeodeVerif.C19.group_is_phase_plus_dispersion
+#print axioms GeodeVerif.C19.group_is_phase_plus_dispersion_wavelength
